@@ -65,6 +65,8 @@ type arrayRun struct {
 	maxH   int
 	splits int
 	merges int
+	maxFan int
+	deep   bool // many small elements: index slabs with >= 32 children (binary-search routing), height 3
 }
 
 func (r *arrayRun) viol(what, detail string) {
@@ -102,7 +104,11 @@ func (r *arrayRun) newVal() aval {
 		}
 		return aval{id: -id, v: v, sz: sz}
 	}
-	switch rng.Pick(30, 12, 18, 8, 10, 10, 12) {
+	pick := rng.Pick(30, 12, 18, 8, 10, 10, 12)
+	if r.deep && !rng.Chance(3) {
+		pick = 0
+	}
+	switch pick {
 	case 0: // small unsigned integers of every CBOR width; identity = the number
 		ws := []uint64{0, 24, 256, 65536, 1 << 32}
 		base := ws[rng.Intn(len(ws))]
@@ -204,13 +210,45 @@ func (r *arrayRun) mutTail(dump bool) []int64 {
 }
 
 func (r *arrayRun) noteShape(d []int64) {
-	if len(d) > 0 && d[0] == 1 {
-		r.maxH = max(r.maxH, 2)
+	p := 0
+	maxFan := 0
+	var rec func() int
+	rec = func() int {
+		if p >= len(d) {
+			return 0
+		}
+		if d[p] == 0 {
+			p += 6 + 3*int(d[p+5])
+			return 1
+		}
+		n := int(d[p+4])
+		if n > maxFan {
+			maxFan = n
+		}
+		p += 5 + 4*n
+		h := 0
+		for k := 0; k < n; k++ {
+			if x := rec(); x > h {
+				h = x
+			}
+		}
+		return h + 1
+	}
+	h := rec()
+	if h > r.maxH {
+		r.maxH = h
+	}
+	if maxFan > r.maxFan {
+		r.maxFan = maxFan
 	}
 }
 
 func (r *arrayRun) wantDump() int64 {
-	if len(r.shadow) <= 48 || r.step%16 == 0 {
+	every := 16
+	if r.deep {
+		every = 96
+	}
+	if len(r.shadow) <= 48 || r.step%every == 0 {
 		return 1
 	}
 	return 0
@@ -643,6 +681,10 @@ func cmdArray(a Args) {
 			continue
 		}
 		T := sizes[hr.Pick(20, 8, 8, 6, 10, 14, 6, 5, 2)]
+		deep := h%10 == 9
+		if deep {
+			T = []uint32{256, 512, 1024}[hr.Intn(3)]
+		}
 		atree.VerifSetThreshold(T)
 		base := NewLogBase()
 		st := newStorage(base)
@@ -651,12 +693,18 @@ func cmdArray(a Args) {
 		ti := uint64(40 + hr.Intn(3))
 		arr, err := atree.NewArray(rec, addr, testutils.NewSimpleTypeInfo(ti))
 		must(err)
-		r := &arrayRun{rep: rep, tr: tr, hist: h, tag: tag, T: T, rng: hr, base: base, st: st, rec: rec, addr: addr, arr: arr, ti: ti}
+		r := &arrayRun{rep: rep, tr: tr, hist: h, tag: tag, T: T, rng: hr, base: base, st: st, rec: rec, addr: addr, arr: arr, ti: ti, deep: deep}
 		rec.Log = rec.Log[:0]
 		tr.Hist(tag, uint64(T), arr.SlabID().IndexAsUint64(), ti)
 		steps := a.Steps/2 + hr.Intn(a.Steps)
 		if T >= 4096 {
 			steps = steps * 2
+		}
+		if deep {
+			steps = 2200 + hr.Intn(1500)
+			if T == 256 {
+				steps += 1500 // height 3 at the smallest slab size
+			}
 		}
 		func() {
 			defer func() {
@@ -668,7 +716,9 @@ func cmdArray(a Args) {
 			sawMeta, sawBack := false, false
 			for k := 0; k < steps && !r.failed; k++ {
 				n := uint64(len(r.shadow))
-				if k == steps*2/5 {
+				if deep && k < steps*3/5 {
+					phase = 0
+				} else if k == steps*2/5 {
 					phase = 1
 				} else if k == steps*3/5 {
 					phase = 2
@@ -773,7 +823,7 @@ func cmdArray(a Args) {
 				} else if sawMeta {
 					sawBack = true
 				}
-				if k%8 == 7 || len(r.shadow) < 40 {
+				if (k%8 == 7 && !deep) || len(r.shadow) < 40 || k%64 == 63 {
 					r.verify()
 				}
 				if k%97 == 96 {
@@ -792,6 +842,10 @@ func cmdArray(a Args) {
 			}
 			if sawMeta {
 				rep.Event("reached_index_root")
+			}
+			rep.Event(fmt.Sprintf("max_height_%d", r.maxH))
+			if r.maxFan >= 32 {
+				rep.Event("index_slab_with_32_or_more_children(binary search routing)")
 			}
 		}()
 		if h < 2 {
